@@ -391,7 +391,7 @@ func c13Scenarios(c *fw.Ctx) []*Scenario {
 	}}
 	b2, b3 := -1, 2 // two-thread scenarios: every interleaving; three threads: preemption bound
 	if c.Thorough() {
-		b2, b3 = -1, 4
+		b2, b3 = -1, -1 // every interleaving, also for three threads
 	}
 	return []*Scenario{
 		incr(2, 16, b2, "S1-two-writers-page16"),
